@@ -21,6 +21,27 @@ pub assume_specification<T, F: FnOnce(T) -> bool + core::marker::Destruct>[ Opti
         o is Some ==> call_ensures(f, (o->Some_0,), r),
 ;
 
+#[verifier::allow(undeclared_external_trait)]
+pub assume_specification<T, F: FnOnce(T) -> bool + core::marker::Destruct>[ Option::<T>::is_none_or ](o: Option<T>, f: F) -> (r: bool)
+    requires o is Some ==> call_requires(f, (o->Some_0,)),
+    ensures
+        o is None ==> r,
+        o is Some ==> call_ensures(f, (o->Some_0,), r),
+;
+
+#[verifier::allow(undeclared_external_trait)]
+pub assume_specification<T: core::marker::Destruct>[ bool::then_some ](b: bool, t: T) -> (r: Option<T>)
+    ensures r == (if b { Some(t) } else { None }),
+;
+
+#[verifier::allow(undeclared_external_trait)]
+pub assume_specification<T: core::marker::Destruct, P: FnOnce(&T) -> bool + core::marker::Destruct>[ Option::<T>::filter ](o: Option<T>, p: P) -> (r: Option<T>)
+    requires o is Some ==> call_requires(p, (&o->Some_0,)),
+    ensures
+        o is None ==> r is None,
+        o is Some ==> ((call_ensures(p, (&o->Some_0,), true) && r == o) || (call_ensures(p, (&o->Some_0,), false) && r is None)),
+;
+
 /// `slice.iter().any(f)` (rewrite R12): verified loop with the complete contract vstd lacks
 pub fn vx_any<T, F: Fn(&T) -> bool>(v: &[T], f: F) -> (r: bool)
     requires forall|i: int| 0 <= i < v@.len() ==> call_requires(f, (&v@[i],)),
